@@ -57,7 +57,7 @@ class Shadow:
             self.out.append((c, int(dst[1:]), serial))
         elif ty == "c" and not noreply and dst[0] == "n" and self.names.get(int(dst[1:])):
             self.out.append((c, self.names[int(dst[1:])][0], serial))
-        if rserial and dst[0] == "u":
+        if rserial and dst[0] == "u" and ty in "cres":
             k = (int(dst[1:]), c, rserial)
             if k in self.out:
                 self.out.remove(k)
@@ -144,7 +144,7 @@ def gen_history(rnd, cfg, mode, nsteps):
         w = {"call": 6, "connect": 1.0 if len(live) < 4 and sh.nextid < 6 else 0, "disc": 1.3,
              "genuine": 5 if sh.out else 0, "dup": 2 if sh.done else 0, "wrong": 2 if sh.out else 0,
              "third": 2 if sh.out and len(live) >= 3 else 0, "tothird": 2 if sh.out and len(live) >= 3 else 0,
-             "callrs": 0.7 if sh.out or sh.done else 0.2, "sigrs": 0.5, "unsol": 0.8, "sig": 0.8, "name": 1.0, "match": 0.3, "drv": 0.3,
+             "callrs": 0.7 if sh.out or sh.done else 0.2, "sigrs": 0.5, "unsol": 0.8, "sig": 0.8, "name": 1.0, "match": 0.3, "drv": 0.3, "unk": 2.0 if sh.out else 0.4,
              "tick": ((10.0 if sh.out else 2.0) if nticks < 3 else 0) if timed else 0.15}
         if len(cfg) > 3:
             idle = [k for k in live if not any(o[0] == k for o in sh.out)]
@@ -227,6 +227,24 @@ def gen_history(rnd, cfg, mode, nsteps):
             sh.ev.append("U.%d" % c)
         elif kind == "match":
             sh.add_match(rnd.choice(live))
+        elif kind == "unk":
+            # a message of a type the bus does not know (5, 9, 255), carrying the reply serial of an outstanding call: from the
+            # callee, from a third party, to a third party, or with no / a wrong reply serial
+            uty = rnd.choice("vuw")
+            if sh.out and rnd.random() < 0.8:
+                a, b, s0 = rnd.choice(sh.out)
+                r = rnd.random()
+                if r < 0.6 and b in live:
+                    sh.send(b, uty, "u%d" % a, rserial=s0, nfds=0)
+                elif r < 0.8:
+                    cs = [k for k in live if k != b]
+                    if cs:
+                        sh.send(rnd.choice(cs), uty, "u%d" % a, rserial=s0, nfds=0)
+                elif b in live:
+                    sh.send(b, uty, sh.pick_dest(b), rserial=s0, nfds=0)
+            else:
+                c = rnd.choice(live)
+                sh.send(c, uty, sh.pick_dest(c), rserial=rnd.choice((0, 0, 1, 2, 3)))
         elif kind == "drv":
             sh.ev.append("G.%d.%d" % (rnd.choice(live), sh.serial()))
         elif kind == "tick":
@@ -326,6 +344,14 @@ def scenarios():
         S.append(("driver-calls", (R, 50, -1), ["C0", "C0", "C0", "C0", "M.1.20.0.x.x.x", "M.1.21.0.c.x.x", "M.1.22.0.x.u0.x", "M.1.23.0.s.x.x", "M.2.24.1.x.x.x",
                                                 "M.3.25.1.c.u0.x", "M.3.26.1.s.x.x", "R.0.30.3.0", "G.0.31", "G.0.32", "L.0.33.3", "M.0.34.1.x.x.x", "G.0.35",
                                                 "R.1.36.4.4", "G.3.37", "D.2", "G.0.38"]))
+    # message types the bus does not know are refused first and change nothing, whatever reply serial they carry
+    def unk(c, d, ser, rs, tok, ty="u"):
+        return "S.%d.%s.0.0.%d.%d.%s.0.%d" % (c, ty, ser, rs, d, tok)
+    for R in (1, 0):
+        S.append(("unknown-type-then-reply", (R, 4, -1), ["C0", "C0", "C0", call(0, "u1", 7, 1), unk(1, "u0", 8, 7, 2), unk(2, "u0", 8, 7, 3, "v"), unk(1, "u2", 9, 7, 4, "w"),
+                                                         ret(1, "u0", 10, 7, 5), ret(1, "u0", 11, 7, 6), unk(1, "u0", 12, 0, 7), unk(1, "n2", 13, 7, 8), unk(1, "n8", 14, 7, 9)]))
+        S.append(("unknown-type-then-leave", (R, 4, -1), ["C0", "C0", call(0, "u1", 7, 1), unk(1, "u0", 8, 7, 2), unk(1, "u0", 9, 7, 3, "w"), "D.1"]))
+        S.append(("unknown-type-then-timeout", (R, 4, T), ["C0", "C0", call(0, "u1", 7, 1), unk(1, "u0", 8, 7, 2, "v"), "T.%d" % TICK_FULL, unk(1, "u0", 9, 7, 3)]))
     S.append(("queue-eavesdropper", (0, 4, -1, Q), ["C0", "C0", "C0", "M.2.20.1.x.x.x", "B.2", "S.0.s.0.0.7.0.u1.0.1", call(0, "u1", 8, 2), "U.2", "S.0.s.0.0.9.0.u1.0.3"]))
     return S
 
